@@ -25,6 +25,14 @@ HARNESS = os.path.join(ROOT, "harness")
 BUILD = os.path.join(ROOT, "build")
 REPO = os.environ.get("VERIF_REPO", "/repo")   # /repo unless a scratch worktree is being tested
 NCPU = min(16, os.cpu_count() or 4)
+if os.environ.get("VERIF_NCPU"):
+    NCPU = max(1, int(os.environ["VERIF_NCPU"]))
+else:
+    try:   # be a good neighbour when many checks run at once on this machine
+        if os.getloadavg()[0] > 2 * NCPU:
+            NCPU = max(4, NCPU // 4)
+    except OSError:
+        pass
 
 GOENV = dict(os.environ)
 GOENV.update({"GOFLAGS": "-mod=mod", "GOPROXY": "off", "CGO_ENABLED": GOENV.get("CGO_ENABLED", "0")})
@@ -75,7 +83,8 @@ class Ctx:
     def violation(self, replay_obj, suffix=""):
         body = json.dumps(replay_obj, indent=1, sort_keys=True)
         h = hashlib.sha1(body.encode()).hexdigest()[:12]
-        path = os.path.join(ROOT, "replays", self.pid, h + ".json")
+        path = os.path.join(ROOT, "replays", self.pid + ("" if REPO == "/repo" else "-scratch"), h + ".json")
+        os.makedirs(os.path.dirname(path), exist_ok=True)
         with open(path, "w") as f:
             f.write(body + "\n")
         self.violations.append((path, suffix))
@@ -179,7 +188,7 @@ def build_harness(ctx, name=None, race=False):
     if REPO != "/repo":
         # scratch worktree under test: same harness sources, alternative go.mod whose replace points there
         suffix = "-" + hashlib.sha1(REPO.encode()).hexdigest()[:8]
-        alt = os.path.join(HARNESS, "alt%s.mod" % suffix)
+        alt = os.path.join(HARNESS, "alt%s.mod" % suffix)   # must live in the module root for -modfile
         with open(alt, "w") as f:
             f.write(open(os.path.join(HARNESS, "go.mod")).read().replace("=> /repo", "=> " + REPO))
         shutil.copy(os.path.join(REPO, "go.sum"), os.path.join(HARNESS, "alt%s.sum" % suffix))
@@ -293,7 +302,7 @@ def coq_eval(ctx, recs, run_module=None, want_expected=False, tag="s"):
             bad += [k * shard + j for j in ids]
             if want_expected:
                 e = re.search(r"E\s*=\s*(.*?)\n\s*:\s", out, re.S)
-                exp = e.group(1) if e else out[-2000:]
+                exp += (e.group(1) if e else out[-2000:])
     return bad, errs, exp
 
 
@@ -356,13 +365,41 @@ def load_known():
 
 
 def handle_mismatches(ctx, binp, recs, bad, source):
-    """shrink, classify against known findings, report"""
+    """classify every mismatch against the known findings (cheaply, on the unshrunk case), then shrink and
+    report the unexplained ones (at most max_report): frequent known findings can never hide a new one"""
     cfg = ctx.cfg
     known = [k for k in load_known()["open"] if k["property"] == ctx.pid]
     preds = cfg.get("predicates", {})
     reported = 0
     seen_known = set()
-    for i in bad[: cfg.get("max_report", 6)]:
+
+    def match_known(case, rec, exp):
+        for k in known:
+            fn = preds.get(k["predicate"])
+            try:
+                if fn and fn(case, rec, exp):
+                    return k
+            except Exception:
+                pass
+        return None
+
+    def note_known(k):
+        if k["id"] not in seen_known:
+            seen_known.add(k["id"])
+            line = "KNOWN-FINDING: property=%s %s [%s]" % (ctx.pid, k["what"], k["id"])
+            print(line, flush=True)
+            ctx.known_lines.append(line)
+
+    unexplained = []
+    for i in bad:
+        k = match_known(recs[i]["case"], recs[i], "") if cfg.get("preclassify", True) else None
+        if k:
+            note_known(k)
+        else:
+            unexplained.append(i)
+    ctx.cov["mismatches_known"] = ctx.cov.get("mismatches_known", 0) + len(bad) - len(unexplained)
+    ctx.cov["mismatches_unexplained"] = ctx.cov.get("mismatches_unexplained", 0) + len(unexplained)
+    for i in unexplained[: cfg.get("max_report", 6)]:
         case = recs[i]["case"]
         small = shrink(ctx, binp, case) if cfg.get("shrink", True) else case
         rr = harness_replay(ctx, binp, [small], tag="final")
@@ -373,25 +410,16 @@ def handle_mismatches(ctx, binp, recs, bad, source):
             # does not reproduce on a fresh run: harness nondeterminism, not a verdict
             ctx.notes.append({"nonreproducible": small})
             continue
-        matched = None
-        for k in known:
-            fn = preds.get(k["predicate"])
-            if fn and fn(small, rr[0], exp):
-                matched = k
-                break
+        matched = match_known(small, rr[0], exp)
         if matched:
-            if matched["id"] not in seen_known:
-                seen_known.add(matched["id"])
-                line = "KNOWN-FINDING: property=%s %s [%s]" % (ctx.pid, matched["what"], matched["id"])
-                print(line, flush=True)
-                ctx.known_lines.append(line)
+            note_known(matched)
             continue
         ctx.violation({
             "property": ctx.pid, "seed": ctx.seed, "source": source, "case": small,
             "original_case": case if small != case else None,
-            "implementation_observation": rr[0].get("obs"),
-            "model_expected": exp,
-            "coq_term": rr[0].get("coq"),
+            "implementation_observation": (rr[0].get("obs") or "")[:4000],
+            "model_expected": exp[:6000],
+            "coq_term": (rr[0].get("coq") or "")[:6000],
             "contradicts": cfg.get("theorem_names", []),
             "how_to_replay": "bin/check %s --replay <this file>" % ctx.pid,
         })
@@ -498,7 +526,8 @@ def finish(ctx):
         "coverage": cov, "assumptions": cfg.get("assumptions", []),
         "wall_s": round(time.time() - ctx.t0, 2), "violations": len(ctx.violations),
     }
-    with open(os.path.join(ROOT, "evidence", ctx.pid + ".json"), "w") as f:
+    evdir = os.path.join(ROOT, "evidence") if REPO == "/repo" else ctx.work   # scratch runs never touch the real evidence
+    with open(os.path.join(evdir, ctx.pid + ".json"), "w") as f:
         json.dump(ev, f, indent=1, sort_keys=True)
         f.write("\n")
     ctx.log("done: %d violation(s), %d known finding(s), %s evaluations, proofs %s/%s" % (
